@@ -255,6 +255,7 @@ pub fn property() -> Property {
         id: "C15",
         cases,
         clauses: &["context-ops-succeed", "timers-keep-firing"],
+        full_rerun_check: true,
         assumptions: &["discrete-event time in the quick tier (ticks are expected at exact virtual times)"],
     }
 }
